@@ -85,9 +85,13 @@ def check_diag_set_order():
     if seen < 150:
         return [{"name": "diag-set-order/functions-found", "status": "unknown", "where": f"only {seen} functions found in {setorder.DIAG_MODULES}: layout changed?"}]
     obs = [{"name": "diag-set-order/functions-scanned", "status": "discharged", "where": f"{seen} functions of {', '.join(setorder.DIAG_MODULES)}"}]
-    for rel, qual, ln, txt in found:
+    for rel, qual, ln, txt, resorts in found:
         if (rel, qual) in DIAG_ORDER_PINNED:
             obs.append({"name": f"diag-set-order/pinned/{qual}", "status": "discharged", "where": f"{rel}:{ln} {txt}", "detail": DIAG_ORDER_PINNED[(rel, qual)]})
+            continue
+        if resorts and not txt.startswith("join("):
+            obs.append({"name": f"diag-set-order/no-container-order-in-message/{qual}", "status": "unknown", "where": f"{rel}:{ln} {txt}",
+                        "detail": "a set is iterated, but the function also sorts: whether the container order reaches the output is not decided syntactically"})
             continue
         obs.append({"name": f"diag-set-order/no-container-order-in-message/{qual}", "status": "refuted", "where": f"{rel}:{ln} {txt}",
                     "detail": "a set is turned into message text (or a sequence of messages) in container order: the diagnostics depend on PYTHONHASHSEED", "key": f"diag-set-order:{qual}:{txt}", "confirmed": True})
